@@ -66,7 +66,7 @@ Vecs == CASE FAMILY = "upd" -> UpdVecs(0) [] FAMILY = "updvar" -> VarVecs(0) [] 
                                  \cup {[kind |-> "comm", sub |-> 32, u |-> x] : x \in {y \in LargeMulti : SubSeq(y.o, 1, 12) # SubSeq(y.o, 13, 24) /\ SubSeq(y.o, 13, 24) # SubSeq(y.o, 25, 36) /\ SubSeq(y.o, 1, 12) # SubSeq(y.o, 25, 36)}}
           [] FAMILY = "updap" -> {[kind |-> "updap", asn4 |-> TRUE, var |-> Canon, u |-> x.u, wids |-> x.wids, nids |-> x.nids] : x \in AddPathVecs}
           [] FAMILY \in {"mp_ipv6", "mp_lu4", "mp_lu6", "mp_vpn4", "mp_vpn6", "mp_evpn", "mp_fs"} -> MpPool(SubSeq(FAMILY, 4, Len(FAMILY)))
-          [] FAMILY = "enc" -> EncVecs(0) [] FAMILY = "mpdec" -> Mp4Vecs(0) [] FAMILY = "updspell" -> SpellVecs(0)
+          [] FAMILY = "enc" -> EncVecs(0) [] FAMILY = "mpdec" -> Mp4Vecs(0) [] FAMILY = "updspell" -> SpellVecs(0) [] FAMILY = "fsdec" -> FsDecVecs(0)
           [] FAMILY = "elems" -> ElemVecs(0)
           [] FAMILY = "rr" -> RRVecs(0) [] FAMILY = "ka" -> {[kind |-> "ka", u |-> [x |-> 0]]}
 
@@ -80,6 +80,7 @@ Bytes(v) ==
      [] v.kind = "mp" -> EncMpUpdate(v)
      [] v.kind = "enc" -> EncBytes(v)
      [] v.kind = "mpdec" -> Mp4Bytes(v)
+     [] v.kind = "fsdec" -> FsDecBytes(v)
      [] v.kind = "updap" -> EncUpdateAddPath(v.u, TRUE, v.wids, v.nids)
      [] v.kind = "comm" ->     \* an UPDATE announcing one prefix with the base attributes and this one community
           LET a == EncAttrs(Base(TRUE), TRUE, FALSE) \o AttrTLV(v.sub, v.u.o, FALSE)
